@@ -257,7 +257,7 @@ func (p *parser) parseObjectPropertyKey() (string, string) {
 		}
 	default:
 		// null, false, class, etc.
-		if matchIdentifier.MatchString(literal) {
+		if isIdentifierName(literal) {
 			value = literal
 		}
 	}
@@ -426,7 +426,7 @@ func (p *parser) parseDotMember(left ast.Expression) ast.Expression {
 	literal := p.literal
 	idx := p.idx
 
-	if !matchIdentifier.MatchString(literal) {
+	if !isIdentifierName(literal) {
 		p.expect(token.IDENTIFIER)
 		p.nextStatement()
 		return &ast.BadExpression{From: period, To: p.idx}
